@@ -28,18 +28,6 @@ def load_prop(prop):
     return importlib.import_module(f"vmon.props.{prop}")
 
 
-def ensure_deps():
-    deps = os.path.join(VERIF, ".deps")
-    if not os.path.isdir(os.path.join(deps, "icontract")):
-        subprocess.run(
-            [PY, "-m", "pip", "install", "-q", "--no-index", "--find-links", "/opt/veriftools/wheels",
-             "--target", deps, "icontract"],
-            check=False, stdout=subprocess.DEVNULL, stderr=subprocess.DEVNULL,
-        )
-    if deps not in sys.path:
-        sys.path.insert(0, deps)
-
-
 def _tier(args_tier):
     return os.environ.get("VERIF_TIER") or args_tier or "quick"
 
@@ -117,7 +105,6 @@ def _spawn(prop, tier, seed, shard, nshards, workdir, out, hashseed="0", only=No
 def check(prop, tier, replay=None):
     tier = _tier(tier)
     seed = _seed()
-    ensure_deps()
     mod = load_prop(prop)
     t0 = time.time()
     workdir = os.path.join(VERIF, ".work", f"{prop}-{tier}-{os.getpid()}")
